@@ -434,3 +434,157 @@ Proof.
         apply (class_meet' (a_stride a) (a_stride b) (a_first a) (a_first b) n c mb) in Hc; try lia.
         apply Z.mod_divide in Hc; [|lia]. destruct Hc as (q & Hq). destruct (Z.le_gt_cases 0 q); nia.
 Qed.
+
+(* ------------------------------------------------------------------ exemption bounds *)
+
+Lemma exemptions_ok_spec n k ce degs :
+  exemptions_ok n k ce degs = true <->
+  0 < k /\ k <= n / 2 + 1 /\ forall d, In d degs -> d <= ce - 1 + n /\ k <= ce - 1 + n - d.
+Proof.
+  unfold exemptions_ok. rewrite !andb_true_iff, Z.ltb_lt, Z.leb_le, forallb_forall. split.
+  - intros [[H1 H2] H3]. repeat split; try assumption; specialize (H3 _ H);
+      apply andb_true_iff in H3; destruct H3 as [A B]; apply Z.leb_le in A, B; assumption.
+  - intros (H1 & H2 & H3). repeat split; try assumption. intros d Hd. destruct (H3 d Hd).
+    apply andb_true_iff. split; apply Z.leb_le; assumption.
+Qed.
+
+(* an accepted exemption count always leaves enforced steps: at least n/2 - 1 >= 3 of them *)
+Theorem exemption_bounds n k ce degs : 8 <= n -> exemptions_ok n k ce degs = true ->
+  1 <= k <= n / 2 + 1 /\ k < n /\ n / 2 - 1 <= n - k /\ 3 <= n - k.
+Proof.
+  intros Hn H. apply exemptions_ok_spec in H. destruct H as (H1 & H2 & _).
+  pose proof (Z.div_mod n 2 ltac:(lia)). pose proof (Z.mod_pos_bound n 2 ltac:(lia)). lia.
+Qed.
+
+Lemma exemptions_refused n k ce degs : k <= 0 \/ n / 2 + 1 < k -> exemptions_ok n k ce degs = false.
+Proof.
+  intros H. destruct (exemptions_ok n k ce degs) eqn:E; [|reflexivity].
+  apply exemptions_ok_spec in E. lia.
+Qed.
+
+(* ------------------------------------------------------------------ prepare_assertions *)
+
+Lemma a_cmp_eq a b : a_cmp a b = Eq ->
+  a_stride a = a_stride b /\ a_first a = a_first b /\ a_col a = a_col b.
+Proof.
+  unfold a_cmp. destruct (Z.eqb_spec (a_stride a) (a_stride b)) as [Es|Es].
+  - destruct (Z.eqb_spec (a_first a) (a_first b)) as [Ef|Ef]; intros H; apply Z.compare_eq in H; tauto.
+  - intros H. apply Z.compare_eq in H. contradiction.
+Qed.
+
+Lemma set_insert_incl a l x : In x (set_insert a l) -> x = a \/ In x l.
+Proof.
+  induction l as [|b r IH]; cbn [set_insert].
+  - intros [<-|[]]. left; reflexivity.
+  - destruct (a_cmp a b).
+    + intros H. right. exact H.
+    + intros [<-|H]; [left; reflexivity|right; exact H].
+    + intros [<-|H]; [right; left; reflexivity|]. destruct (IH H); [left; assumption|right; right; assumption].
+Qed.
+
+Lemma set_insert_keeps a l x : In x l -> In x (set_insert a l).
+Proof.
+  induction l as [|b r IH]; cbn [set_insert]; [intros []|].
+  destruct (a_cmp a b); intros H; [exact H|right; exact H|].
+  destruct H as [<-|H]; [left; reflexivity|right; apply IH; exact H].
+Qed.
+
+Lemma set_insert_adds a l : (forall b, In b l -> a_cmp a b <> Eq) -> In a (set_insert a l).
+Proof.
+  induction l as [|b r IH]; cbn [set_insert]; intros H; [left; reflexivity|].
+  destruct (a_cmp a b) eqn:E.
+  - exfalso. apply (H b); [left; reflexivity|exact E].
+  - left; reflexivity.
+  - right. apply IH. intros c Hc. apply H. right; exact Hc.
+Qed.
+
+(* a new assertion is compatible with the accepted ones *)
+Definition ok_against (a : Assertion) (acc : list Assertion) : Prop :=
+  forall b, In b acc -> a_col b = a_col a -> overlaps_with b a = Some false.
+
+Lemma prepare_go_cons a r acc w n res :
+  prepare_go (a :: r) acc w n = inr res <->
+  validate_trace_width a w = true /\ validate_trace_length a n = VOk /\ ok_against a acc /\
+  prepare_go r (set_insert a acc) w n = inr res.
+Proof.
+  cbn [prepare_go]. destruct (validate_trace_width a w); cbn [negb]; [|split; [discriminate|intros (H & _); discriminate]].
+  destruct (validate_trace_length a n); try (split; [discriminate|intros (_ & H & _); discriminate]).
+  set (same := filter (fun b => a_col b =? a_col a) acc).
+  destruct (existsb (fun b => match overlaps_with b a with Some false => false | _ => true end) same) eqn:E.
+  - split; [intros H; destruct (existsb (fun b => match overlaps_with b a with None => true | _ => false end) same);
+             discriminate H|]. intros (_ & _ & Hok & _). exfalso.
+    apply existsb_exists in E. destruct E as (b & Hb & Hov). unfold same in Hb. apply filter_In in Hb.
+    destruct Hb as [Hin Hc]. apply Z.eqb_eq in Hc. rewrite (Hok b Hin Hc) in Hov. discriminate.
+  - split.
+    + intros H. repeat split; try assumption. intros b Hin Hc.
+      assert (Hb : In b same) by (unfold same; apply filter_In; split; [assumption|apply Z.eqb_eq; assumption]).
+      destruct (overlaps_with b a) as [[|]|] eqn:Ov; try reflexivity; exfalso;
+        assert (X : existsb (fun b => match overlaps_with b a with Some false => false | _ => true end) same = true)
+          by (apply existsb_exists; exists b; split; [assumption|rewrite Ov; reflexivity]); congruence.
+    + intros (_ & _ & _ & H). exact H.
+Qed.
+
+Lemma ok_against_no_eq a acc : ok_against a acc -> forall b, In b acc -> a_cmp a b <> Eq.
+Proof.
+  intros Hok b Hin E. apply a_cmp_eq in E. destruct E as (_ & Ef & Ec).
+  specialize (Hok b Hin (eq_sym Ec)). unfold overlaps_with in Hok.
+  rewrite <- Ec, Z.eqb_refl in Hok. cbn [negb] in Hok. rewrite Ef, Z.eqb_refl in Hok. discriminate.
+Qed.
+
+(* acceptance of prepare_go, relative to an accumulator *)
+Lemma prepare_go_accepts l : forall acc w n,
+  (exists res, prepare_go l acc w n = inr res) <->
+  Forall (fun a => validate_trace_width a w = true /\ validate_trace_length a n = VOk) l /\
+  Forall (fun a => ok_against a acc) l /\
+  ForallOrdPairs (fun b a => a_col b = a_col a -> overlaps_with b a = Some false) l.
+Proof.
+  induction l as [|a r IH]; intros acc w n.
+  - split; [intros _; repeat constructor|intros _; eexists; reflexivity].
+  - split.
+    + intros (res & H). apply prepare_go_cons in H. destruct H as (Hw & Hl & Hok & H).
+      destruct (proj1 (IH _ _ _) (ex_intro _ res H)) as (F1 & F2 & F3).
+      split; [constructor; [split; assumption|exact F1]|].
+      split.
+      * constructor; [exact Hok|]. apply Forall_forall. intros x Hx b Hb Hc.
+        rewrite Forall_forall in F2. apply (F2 x Hx b); [apply set_insert_keeps; exact Hb|exact Hc].
+      * constructor; [|exact F3]. apply Forall_forall. intros x Hx Hc.
+        rewrite Forall_forall in F2. apply (F2 x Hx a); [|exact Hc].
+        apply set_insert_adds. apply ok_against_no_eq. exact Hok.
+    + intros (F1 & F2 & F3). inversion F1 as [|? ? [Hw Hl] F1']; subst.
+      inversion F2 as [|? ? Hok F2']; subst. inversion F3 as [|? ? Ha F3']; subst.
+      assert (H : exists res, prepare_go r (set_insert a acc) w n = inr res).
+      { apply IH. split; [exact F1'|]. split; [|exact F3'].
+        apply Forall_forall. intros x Hx b Hb Hc. rewrite Forall_forall in F2', Ha.
+        destruct (set_insert_incl _ _ _ Hb) as [->|Hb']; [apply (Ha x Hx Hc)|apply (F2' x Hx b Hb' Hc)]. }
+      destruct H as (res & H). exists res. apply prepare_go_cons. repeat split; assumption.
+Qed.
+
+(* prepare_assertions accepts a list of well-formed assertions exactly when each fits the trace (column < width,
+   valid for the length) and no two of them name a common cell *)
+Theorem prepare_accepts_iff l w n : Forall wf l ->
+  ((exists res, prepare_assertions l w n = inr res) <->
+   Forall (fun a => a_col a < w /\ valid a n) l /\
+   ForallOrdPairs (fun b a => ~ common_cell b a n) l).
+Proof.
+  intros Hwf. unfold prepare_assertions. rewrite prepare_go_accepts.
+  assert (Hw : forall a, validate_trace_width a w = true <-> a_col a < w).
+  { intros a. unfold validate_trace_width. rewrite negb_true_iff, Z.leb_gt. tauto. }
+  split.
+  - intros (F1 & _ & F3). rewrite Forall_forall in F1, Hwf.
+    assert (Hv : forall a, In a l -> valid a n) by (intros a Ha; split; [apply Hwf; exact Ha|apply F1; exact Ha]).
+    split; [apply Forall_forall; intros a Ha; split; [apply Hw, F1, Ha|apply Hv, Ha]|].
+    clear F1. induction F3 as [|b r Hb F3 IH]; [constructor|].
+    constructor; [|apply IH; intros a Ha; apply Hv; right; exact Ha].
+    rewrite Forall_forall in Hb. apply Forall_forall. intros a Ha Hcc.
+    destruct (overlaps_iff b a n (Hv b (or_introl eq_refl)) (Hv a (or_intror Ha))) as [_ H2].
+    destruct Hcc as [Hc Hs]. specialize (Hb a Ha Hc). apply H2 in Hb. apply Hb. split; assumption.
+  - intros (F1 & F3). rewrite Forall_forall in F1.
+    split; [apply Forall_forall; intros a Ha; split; [apply Hw, F1, Ha|apply (F1 a Ha)]|].
+    split; [apply Forall_forall; intros a _ b []|].
+    assert (Hv : forall a, In a l -> valid a n) by (intros a Ha; apply (F1 a Ha)).
+    clear F1. induction F3 as [|b r Hb F3 IH]; [constructor|].
+    constructor; [|apply IH; [inversion Hwf; assumption|intros a Ha; apply Hv; right; exact Ha]].
+    rewrite Forall_forall in Hb. apply Forall_forall. intros a Ha Hc.
+    destruct (overlaps_iff b a n (Hv b (or_introl eq_refl)) (Hv a (or_intror Ha))) as [_ H2].
+    apply H2. apply Hb. exact Ha.
+Qed.
